@@ -22,7 +22,7 @@ def wildStripImpl (s : Str) : Str :=
   Rx.subAll asciiEnv Gen.cm_RE_WILD_STRIP [45] (Rx.subAll asciiEnv Gen.cm_RE_WILD_TAIL [] s)
 
 def mkEnv (bidiL bidiR : List Nat) : Env :=
-  { env := asciiEnv,
+  { env := pyFoldEnv,
     bidi := fun c => if bidiL.contains c then 1 else if bidiR.contains c then 2 else 0,
     wildStrip := wildStripImpl }
 
@@ -108,7 +108,7 @@ def handle (req : Sx) : Sx :=
       | _ => none
     match pat.toStr?, cs, pf.toNat? with
     | some pat, some cs, some pf =>
-      match Parser.compile asciiEnv Gen.lexicon Gen.builtinsRec pat cs pf with
+      match Parser.compile pyFoldEnv Gen.lexicon Gen.builtinsRec pat cs pf with
       | .ok l => .list [.int 0, Codec.encSelList l]
       | .error e => .list [.int 1, .int (errCode e.kind), Sx.ofNat e.offset, Sx.ofStr e.pattern]
     | _, _, _ => .int (-9)
@@ -184,8 +184,8 @@ def handle (req : Sx) : Sx :=
       match Gen.allRegexes.find? (fun p => p.1 == name) with
       | none => .int (-4)
       | some (_, r) =>
-        let m := Rx.matchAt asciiEnv r t i
-        .list [Sx.ofOpt (fun (x : Nat × Caps) => Sx.ofNat x.1) m, Sx.ofNat (Rx.paths asciiEnv t r i), Sx.ofNat (Rx.work asciiEnv t r i)]
+        let m := Rx.matchAt pyFoldEnv r t i
+        .list [Sx.ofOpt (fun (x : Nat × Caps) => Sx.ofNat x.1) m, Sx.ofNat (Rx.paths pyFoldEnv t r i), Sx.ofNat (Rx.work pyFoldEnv t r i)]
     | _, _, _ => .int (-9)
   -- import model: (16 (entry indices 0..7)) -> 1 if the sequence succeeds in a fresh interpreter, 0 otherwise
   | .list [.int 16, .list es] =>
@@ -195,6 +195,27 @@ def handle (req : Sx) : Sx :=
       match Imports.run Gen.Imports.graph Gen.Imports.entryIds (Imports.Interp.empty Gen.Imports.width) eps with
       | .ok st => .list [.int 1, Sx.ofBool st.allDone]
       | .error _ => .list [.int 0]
+    | none => .int (-9)
+  -- end-to-end service: (17 (bidiL bidiR) doc patternText ((name def) ...) ns (queries))
+  --   -> (0 results...) when the pattern compiles in the parser model, (1 errcode offset) otherwise
+  | .list [.int 17, .list [bl, br], d, pat, .list customs, n, .list qs] =>
+    let cs := customs.mapM fun
+      | .list [k, v] => do pure (← k.toStr?, ← v.toStr?)
+      | _ => none
+    match bl.toListOf? Sx.toNat?, br.toListOf? Sx.toNat?, Codec.doc d, pat.toStr?, cs, Codec.nsMap n with
+    | some bl, some br, some d, some pat, some cs, some n =>
+      match Parser.compile pyFoldEnv Gen.lexicon Gen.builtinsRec pat cs 0 with
+      | .ok l => .list [.int 0, .list (qs.map (runQuery (mkEnv bl br) d l n))]
+      | .error e => .list [.int 1, .int (errCode e.kind), Sx.ofNat e.offset]
+    | _, _, _, _, _, _ => .list [.int (-9)]
+  -- per-regex verdict of the C07 analysis: (18 regexName) -> (StarSafe Det) under Python's folding
+  | .list [.int 18, nm] =>
+    match nm.toStr? with
+    | some nm =>
+      let name := String.mk (nm.map Char.ofNat)
+      match Gen.allRegexes.find? (fun p => p.1 == name) with
+      | none => .int (-4)
+      | some (_, r) => .list [Sx.ofBool (Rx.StarSafe foldSpecials r), Sx.ofBool (Rx.Det foldSpecials r)]
     | none => .int (-9)
   | _ => .list [.int (-10)]
 
